@@ -23,6 +23,8 @@ pub enum Act {
     /// one try_read that receives a complete PUT with `Expect: 100-continue` (HTTP/1.<v>): the
     /// connection itself enqueues the interim response, behind whatever is already queued
     ReadExpect(u8),
+    /// `clear_write_buffer()`: all pending output is discarded without touching the stream
+    Clear,
 }
 
 fn act_name(a: &Act) -> String {
@@ -30,6 +32,7 @@ fn act_name(a: &Act) -> String {
         Act::Enq(i) => format!("enq{}", i),
         Act::WBurst => "w:burst3xEINTR".into(),
         Act::ReadExpect(v) => format!("readexpect{}", v),
+        Act::Clear => "clear".into(),
         Act::W(WriteEv::Accept(k)) => format!("w:accept{}", k),
         Act::W(WriteEv::AcceptAllBut(j)) => format!("w:len-{}", j),
         Act::W(WriteEv::AcceptHalf) => "w:half".into(),
@@ -46,6 +49,9 @@ fn parse_act(s: &str) -> Option<Act> {
     }
     if let Some(r) = s.strip_prefix("readexpect") {
         return r.parse().ok().map(Act::ReadExpect);
+    }
+    if s == "clear" {
+        return Some(Act::Clear);
     }
     if s == "w:burst3xEINTR" {
         return Some(Act::WBurst);
@@ -135,6 +141,24 @@ pub fn exec(ctx: &mut Ctx, acts: &[Act]) -> bool {
                     fault = Some(("enqueue-wrote".into(), "enqueue_response touched the stream".into()));
                     break;
                 }
+            }
+            Act::Clear => {
+                if cur.is_some() || !queue.is_empty() {
+                    ctx.rep.count("explicit_discards_with_output_pending");
+                    if cur.is_some() {
+                        ctx.rep.count("explicit_discards_of_a_partly_written_response");
+                    }
+                }
+                if let Err(p) = guarded(|| r.conn.clear_write_buffer()) {
+                    fault = Some(("panic".into(), format!("clear_write_buffer panicked: {}", p)));
+                    break;
+                }
+                if r.script.write_calls() != writes_before {
+                    fault = Some(("clear-wrote".into(), "clear_write_buffer touched the stream".into()));
+                    break;
+                }
+                queue.clear();
+                cur = None;
             }
             Act::ReadExpect(v) => {
                 let version = if *v == 0 { Version::Http10 } else { Version::Http11 };
@@ -338,7 +362,8 @@ pub fn run(ctx: &mut Ctx) {
         }
     }
     // ---- the same with output the connection enqueues itself (interim responses) in the alphabet
-    const ALPHABET2: [Act; 8] = [
+    const ALPHABET2: [Act; 9] = [
+        Act::Clear,
         Act::Enq(1),
         Act::ReadExpect(1),
         Act::ReadExpect(0),
@@ -360,7 +385,7 @@ pub fn run(ctx: &mut Ctx) {
             acts.push(ALPHABET2[(x % base2) as usize]);
             x /= base2;
         }
-        if !acts.iter().any(|a| matches!(a, Act::ReadExpect(_))) {
+        if !acts.iter().any(|a| matches!(a, Act::ReadExpect(_) | Act::Clear)) {
             continue; // covered by the first pass
         }
         for _ in 0..3 {
@@ -414,6 +439,11 @@ pub fn run(ctx: &mut Ctx) {
                 if outstanding < 6 && rng.chance(1, 12) {
                     acts.push(Act::ReadExpect(rng.below(2) as u8));
                     outstanding += 1;
+                    continue;
+                }
+                if rng.chance(1, 30) {
+                    acts.push(Act::Clear);
+                    outstanding = 0;
                     continue;
                 }
                 let ev = match rng.below(14) {
